@@ -15,7 +15,8 @@ DESIGN_REF = "DESIGN.md section 3, C03"
 RULE = ("each run executes one generated workload twice with fresh objects - untraced, then under trace_calls - with tripwire objects (attribute hooks, __class__ "
         "property, descriptors named like the called functions, list/dict/set/tuple/defaultdict subclasses with journaling protocol methods, journaling "
         "__hash__/__eq__/__bool__/__repr__, metaclass hooks, callable proxies bound to module globals) among arguments / returns / yields / caller locals, under a fault plan "
-        "(logger.log raises on chosen attempts, flush raises, hooks raise when touched), a pre-installed profiler in {none, recorder, outer trace_calls} and block exit in "
+        "(logger.log raises on chosen attempts, flush raises, hooks raise when touched - permanently or only the first n times), a pre-installed profiler in {none, recorder, outer "
+        "trace_calls}, the real CallTraceStoreLogger+SQLite behind the tee in a quarter of the runs, the program's own sys.setprofile(None), a worker thread outliving the block, and block exit in "
         "{normal, exception}. non-trivial = at least one traced call carried a tripwire or a fault fired; distinct = distinct plan digests")
 REAL = c02.REAL + ["monkeytype.tracing.trace_calls context manager (profiler save/restore, flush)"]
 STUBBED = c02.STUBBED + ["fault-injecting logger (log/flush raise on the scheduler's plan)", "tripwire objects (user code that journals when executed)"]
@@ -538,7 +539,11 @@ def execute(plan):
     if lg.flush_fired:
         fired["flush_raises"] = lg.flush_fired
     if faults.get("inspect"):
-        fired["inspect_raises"] = len([e for e in B["hj"]])
+        fired["inspect_raises" if faults["inspect"] is True else "inspect_raises_transient"] = len([e for e in B["hj"]])
+    if B["reset_at"] is not None:
+        fired["program_setprofile_none"] = 1
+    if plan.get("thread"):
+        fired["thread_outlives_block"] = 1
     probes = {}
     if n_tw:
         probes["traced call with a tripwire argument"] = 1
